@@ -35,6 +35,10 @@ DATA = ("repid.data._parameters.Parameters", "repid.data._parameters.DelayProper
 
 
 def run(ctx: Ctx) -> None:
+    from .shared import fresh_defaults
+
+    with ctx.as_rule("R-C07-MAP"):
+        fresh_defaults(ctx, "R-C07-MAP")  # every routing key / bucket built without an explicit id gets its own
     codec(ctx)
     mapping(ctx)
     wire(ctx)
@@ -726,7 +730,7 @@ def marker(ctx: Ctx, rule="R-C07-MARKER") -> None:
             return None
         return {"*ca": fn}
 
-    for (bu, ha, ids), want_marker, want_store in (((True, True, False), True, True), ((False, True, True), True, False), ((True, False, True), True, False),
+    for (bu, ha, ids), want_marker, want_store in (((True, True, False), True, True), ((True, True, True), True, True), ((False, True, True), True, False), ((True, False, True), True, False),
                                                   ((False, True, False), False, False), ((True, False, False), False, False)):
         r_ = flow.reach_under(g_ca, ca_env(bu, ha, ids), flow.NORMAL_KINDS)
         stored = any(n.id in r_ for n in g_ca.calls() if isinstance(n.ast.func, ast.Attribute) and n.ast.func.attr == "store_bucket")
